@@ -140,7 +140,7 @@ class WirePeer(DumbPeer):
         return self.send(rc.Msg(rc.SIGNAL, self.next_serial(), f, sig, body, little=little))
 
     def call(self, path, member, iface=None, sig='', body=(), sender=':1.50', dest=None,
-             flags=0, little=True):
+             flags=0, little=True, serial=None):
         f = {rc.F_PATH: path, rc.F_MEMBER: member}
         if iface:
             f[rc.F_INTERFACE] = iface
@@ -148,5 +148,5 @@ class WirePeer(DumbPeer):
             f[rc.F_SENDER] = sender
         if dest:
             f[rc.F_DESTINATION] = dest
-        return self.send(rc.Msg(rc.METHOD_CALL, self.next_serial(), f, sig, body, flags=flags,
-                                little=little))
+        return self.send(rc.Msg(rc.METHOD_CALL, serial if serial is not None else self.next_serial(),
+                                f, sig, body, flags=flags, little=little))
